@@ -3,6 +3,12 @@ NOTES = ("All checks build the CURRENT /repo tree: harness test files, the kit p
          "Exit 0 = held on everything explored (known findings are printed as KNOWN-FINDING lines), exit 1 = VIOLATION, exit 2 = internal error.")
 NOT_APPLICABLE = {}
 META = {
+    "C06": {
+        "technique": "stateless model checking of the implementation: all push histories up to a depth x all interleavings (preemption-bounded, HB state pruning) of Push/Close with the background flusher on the instrumented writer with shrunk thresholds, read back through the real reader; plus real-threshold runs and exhaustive record-length windows",
+        "text": "Every history of <=4 (thorough <=6) pushes over {A},{B},{A,B} x slot parity, followed by Close, is run under every schedule of the writer thread and the background flusher within preemption bound 2 (thorough 3); the real reader must return exactly the reverse push order for both addresses. The un-instrumented writer is additionally driven at the real thresholds (per-address counts 1,2,999..1001,1999..2001,3000,3001 and a >100000-address run that triggers the periodic partial flush), and linked-log records of every reachable length in [min,400] and [16300,16500] are written and read back. Histories x schedules is exactly the property's quantifier.",
+        "design_ref": "§4 C06, §3.3",
+        "note": "Trusted: channel/atomic/mutex/timer models (conformance-tested); shrunk constants (batch size 2, parked buffers 2, channel capacity 1, periodic flush slot%2 && >1 keys, small-key threshold 2) stand for the real ones in the scheduled variant, the real ones are exercised free-running; rank list size is not shrunk; linked log/hashmap/zstd calls are atomic steps.",
+    },
     "C09": {
         "technique": "stateless model checking of the implementation: all interleavings (no preemption bound) of 2-3 threads over the real MultiEpoch methods under a controlled scheduler, RWMutex modelled with writer preference, happens-before state pruning; brute-force linearizability against sequential runs of the real object",
         "text": "Every interleaving of every pair and (in thorough: every, in quick: half of the) triple of query-side x reload-side operations on the epoch-set lock is executed on the real methods; deadlock freedom, sorted duplicate-free listings and linearizability of observations and final epoch set are checked on each. This is the right level because the defect class (lock re-entrancy vs a pending writer, torn epoch set) needs one specific 3-step schedule that tests never force.",
